@@ -369,6 +369,17 @@ def dump_requests(run, deep=False):
             count = rng.choice([None, None, 0, 1, 2, n, 10 ** 9])
             if rng.random() < run.scale(0.5, 1.0):
                 out.append(("dump.parseall %s %s %s" % (T.s(skip), T.s(count), e), ("all", good, skip, count)))
+    # a record whose payload cannot be a message (shorter than the common header) in the MIDDLE of valid records: the reader
+    # drops it "without any effect" and goes on with the records behind it
+    for _ in range(run.scale(60, 400)):
+        ms = capture_msgs(rng, rng.choice([2, 3, 4, 5]))
+        recs = [record(tag_of(k), p) for k, m, p in ms]
+        j = rng.randrange(len(ms))
+        k, m, p = ms[j]
+        short = p[:rng.choice([1, 2, 3, 4, 5])]
+        data = b"".join(recs[:j]) + record(tag_of(k), short) + b"".join(recs[j:])
+        good = [(k2, m2) for k2, m2, _ in ms]
+        out.append(("dump.parseall %s - %s" % (rng.choice(["-", "0"]), T.enc_octets(data)), ("all", good, None, None)))
     setattr(run, key, out)
     return out
 
